@@ -108,6 +108,10 @@ def run_faces(ctx, desc):
     r = np.random.default_rng(desc["dseed"])
     Ue = r.permutation(np.arange(1, (W + 1) * H + 1)).astype(float).reshape(H, W + 1)
     Ve = (r.permutation(np.arange(1, (H + 1) * W + 1)).astype(float) + 20000).reshape(H + 1, W)
+    # a fifth of the single-component cases: the operated component is handed over integer-typed (whole numbers) and its
+    # partner multiplied by 1.25 (fractional): what crosses an axis-swapping link is then 1.25 x the true edge value, whatever
+    # the sign the link demands, and it must arrive unrounded
+    mixed = desc["dseed"] % 5 == 0 and desc["dseed"] % 4 != 0
     if per:
         Ue[:, W] = Ue[:, 0]
         Ve[H, :] = Ve[0, :]
@@ -124,6 +128,8 @@ def run_faces(ctx, desc):
     ds = xr.Dataset(coords=coords)
     cm = {"X": {"center": "x", stag: "xs"}, "Y": {"center": "y", stag: "ys"}}
     rule, fv = desc["rule"], desc["fill"]
+    if mixed and not float(fv).is_integer():
+        fv = 4.0  # integer-typed data only with integer-valued fills (numpy casts the fill to the array's dtype; not stated)
     t_listed = linktable.listed_in_order(t, desc["dseed"]) if desc["dseed"] % 2 else t
     g = Grid(ds, coords=cm, face_connections={"face": t_listed}, periodic=False, boundary=dict(rule), fill_value=fv, autoparse_metadata=False)
 
@@ -163,7 +169,7 @@ def run_faces(ctx, desc):
                         lk = t[f][a][s]
                         if lk is not None:
                             crossed.add(("right" if s else "left", "same" if lk[1] == a else "swapped"))
-                            there = opp[f, j, i]
+                            there = opp[f, j, i] * (1.25 if (mixed and lk[1] != a) else 1.0)
                         else:
                             crossed.add(("open", rule[a]))
                             if rule[a] == "fill":
@@ -185,6 +191,10 @@ def run_faces(ctx, desc):
     ctx.note("topologies_run", (Kx, Ky, per, tuple(desc["orients"])))
     comp = {"X": u, "Y": v}
     oth = "Y" if a == "X" else "X"
+    if mixed:
+        comp[a] = comp[a].astype("int64")
+        comp[oth] = comp[oth] * 1.25
+        ctx.count("cases_with_integer_component_and_fractional_partner")
     use_2d = desc["dseed"] % 4 == 0
     try:
         if use_2d:
@@ -221,7 +231,7 @@ def run_faces(ctx, desc):
                                                     f"(j={w[1]}, i={w[2]}) = {Ro[k][w]}, true edge values give {exps_o[k][w]}")
                 return
     # discrete divergence == that of the undivided field (fully linked domains only)
-    if op == "diff" and per:
+    if op == "diff" and per and not mixed:
         ctx.judged(("divergence",) + tuple(ckey[1:4]) + (stag, N), True)
         try:
             du = g.diff({"X": u}, "X", other_component={"Y": v})
